@@ -1,11 +1,12 @@
-(* Extraction for C03 (same oracle as C01).  ExtrOcamlBasic only. *)
+(* Extraction for C03 (same oracle as C01) + the model of KhHomology::into_bigraded.  ExtrOcamlBasic only. *)
 Require Extraction.
 Require Import ExtrOcamlBasic.
 From Coq Require Import ZArith NArith List.
-Require Import Yui.Model.KhCube Yui.Model.KhSigns Yui.Model.KhHomology.
+Require Import Yui.Model.KhCube Yui.Model.KhSigns Yui.Model.KhHomology Yui.Model.IntoBigraded.
 Extraction Language OCaml.
 Extraction "../ocaml/gen/c03_model.ml"
   Z.add N.add Nat.add
   KhSigns.signed_nums KhSigns.kh_crossing_signs
   KhCube.mirror KhCube.crossing_num KhCube.first_edge
-  KhHomology.build_cube KhHomology.kh_groups KhHomology.kh_groups_bigraded.
+  KhHomology.build_cube KhHomology.kh_groups KhHomology.kh_groups_bigraded
+  IntoBigraded.into_bigraded IntoBigraded.count_inhomogeneous.
